@@ -451,7 +451,7 @@ def run(ctx):
         lines = [l for c in ctx.replay_cases for l in c if l.startswith("gm ")]
     else:
         g = Gen(ctx.rng)
-        lines = [l for c in vlib.load_corpus("C17") for l in c] + DIRECTED + [gen_case(g) for _ in range(2500 if quick else 20000)]
+        lines = [l for c in vlib.load_corpus("C17") for l in c] + DIRECTED + [gen_case(g) for _ in range(6000 if quick else 30000)]
     cases = []
     for l in lines:
         try: cases.append(G.Case(l))
